@@ -43,10 +43,15 @@ class RecBroker(AsyncBroker):
         yield b""  # pragma: no cover
 
 
+OFFSETS: List[Any] = [None, "Asia/Kathmandu", _dt.timedelta(hours=3)]
+
+
 def entry_dict(e: Dict[str, Any]) -> Dict[str, Any]:
     d: Dict[str, Any] = {"args": [e["a"]], "kwargs": {"p": e["a"]}}
     if e["k"] in ("cron", "both"):
         d["cron"] = "*/5 * * * *"
+        if OFFSETS[e["a"] % 3] is not None:
+            d["cron_offset"] = OFFSETS[e["a"] % 3]       # each entry has its own offset (or none)
     if e["k"] in ("time", "both"):
         d["time"] = BASE + _dt.timedelta(hours=e["t"])
     if e["k"] == "invalid":
@@ -69,6 +74,7 @@ def tid_of(st: Any) -> int:
 def run(scn: Dict[str, Any]) -> List[Dict[str, Any]]:
     cfg = scn["cfg"]
     events: List[Dict[str, Any]] = []
+    shared_names: List[str] = []
     loop = VLoop()
     try:
         own = RecBroker(events)
@@ -79,6 +85,14 @@ def run(scn: Dict[str, Any]) -> List[Dict[str, Any]]:
             async def fn(*a: Any, **k: Any) -> None:
                 return None
             fn.__name__ = f"fn{i}"
+            if not t.get("own", True) and i % 2 == 0:
+                # a shared task (global registry) whose shared broker sends through `own` by default: still not own's task
+                from taskiq.brokers.shared_broker import AsyncSharedBroker
+                shared = AsyncSharedBroker()
+                shared.default_broker(own)
+                shared.register_task(fn, task_name=f"t{i}", schedule=[entry_dict(e) for e in t["entries"]], own=f"L{i}")
+                shared_names.append(f"t{i}")
+                continue
             b.register_task(fn, task_name=f"t{i}", schedule=[entry_dict(e) for e in t["entries"]], own=f"L{i}")
         # the source's broker must see all tasks: merge registries as a shared global registry would
         own.local_task_registry.update({k: v for k, v in other.local_task_registry.items()})
@@ -88,8 +102,15 @@ def run(scn: Dict[str, Any]) -> List[Dict[str, Any]]:
         def listing() -> List[Any]:
             return loop.run_coro(src.get_schedules())
 
+        def payload(s: Any) -> int:
+            a = s.args[0] if s.args else 0
+            # an entry listed with another entry's (or no) offset is not the declared entry
+            if s.cron and isinstance(a, int) and s.cron_offset != OFFSETS[a % 3]:
+                return 0
+            return a
+
         def view(sts: List[Any]) -> List[Dict[str, Any]]:
-            return [{"task": int(s.task_name[1:]), "k": kind_of(s), "t": tid_of(s), "a": s.args[0] if s.args else 0} for s in sts]
+            return [{"task": int(s.task_name[1:]), "k": kind_of(s), "t": tid_of(s), "a": payload(s)} for s in sts]
 
         for op in scn["ops"]:
             if op[0] == "list":
@@ -113,6 +134,8 @@ def run(scn: Dict[str, Any]) -> List[Dict[str, Any]]:
         events.append(ev)
         return events
     finally:
+        for nm in shared_names:
+            AsyncBroker.global_task_registry.pop(nm, None)
         try:
             loop.shutdown()
         except Exception:  # noqa: BLE001
